@@ -2,7 +2,7 @@
    code_data/_blocks.py regenerated on every run (Gen/SrcTables.v): equal for all tables, indices, values and key
    equalities.  found_index_rank_present: the rank read back right after registration is always there, so the KeyError of
    self._index_to_order[index] cannot arise (the totalisation of TableOps.order_at is never used). *)
-From PCD Require Import Base.PyBase Base.Cfg Model.Flags Model.Args Model.Data Model.LineTable Model.Blocks Model.TableOps.
+From PCD Require Import Base.PyBase Base.PyImp Base.Cfg Model.Flags Model.Args Model.Data Model.LineTable Model.Blocks Model.TableOps.
 From PCD Require Gen.SrcTables.
 
 Section Tie.
@@ -45,6 +45,34 @@ Section Tie.
     destruct (omem (ta_order st) index) eqn:Em.
     - inversion H; subst. exact Em.
     - destruct (key_lookup keq (ta_keys st) x); inversion H; subst; cbn [ta_order]; apply omem_oset.
+  Qed.
+
+  (* additional_args: the generator run to the end is the model's walk over the indices *)
+  Lemma additional_gen : forall idxs st out,
+    match foldM (fun (acc : toargs T * list (T * option Z)) (i : Z) =>
+                   if negb (omem (ta_order (fst acc)) i) then
+                     match PCD.Gen.SrcTables.found_index keq (fst acc) i with
+                     | OK (a, ov, st') => OK (st', snd acc ++ [(a, ov)])
+                     | Err e => Err e
+                     end
+                   else OK acc) idxs (st, out) with
+    | OK acc => OK (snd acc)
+    | Err e => Err e
+    end = match additional_args_from keq st idxs with OK l => OK (out ++ l) | Err e => Err e end.
+  Proof.
+    induction idxs as [|i r IH]; intros st out; cbn [foldM additional_args_from fst snd].
+    - rewrite app_nil_r. reflexivity.
+    - destruct (omem (ta_order st) i); cbn [negb].
+      + apply IH.
+      + rewrite found_index_tie. destruct (found_index keq st i) as [[[a ov] st']|e]; [|reflexivity].
+        rewrite IH. destruct (additional_args_from keq st' r); [|reflexivity]. rewrite <- app_assoc. reflexivity.
+  Qed.
+
+  Theorem additional_args_tie : forall (st : toargs T),
+    PCD.Gen.SrcTables.additional_args keq st = additional_args keq st.
+  Proof.
+    intros st. unfold PCD.Gen.SrcTables.additional_args, additional_args. rewrite additional_gen.
+    destruct (additional_args_from keq st _); reflexivity.
   Qed.
 
   Theorem fa_setitem_tie : forall (st : fromargs T) i a,
